@@ -455,7 +455,7 @@ func ruleL1(r *core.Run) {
 	total := 0
 	for _, f := range scope {
 		if cfgx.HasIrreducible(f) {
-			r.Undecide("L1", core.Key("L1", r.P.Name(f), "irreducible"), r.P.FuncPos(f), "irreducible control flow: loops cannot be classified")
+			r.Undecide("L1", core.Key("L1", r.KeyName(f), "irreducible"), r.P.FuncPos(f), "irreducible control flow: loops cannot be classified")
 			continue
 		}
 		loops := cfgx.Loops(f)
@@ -463,7 +463,7 @@ func ruleL1(r *core.Run) {
 			total++
 			cl := classifyLoop(r, f, l)
 			counts[cl.Kind]++
-			key := core.Key("L1", r.P.Name(f), fmt.Sprintf("loop#%d", i+1))
+			key := core.Key("L1", r.KeyName(f), fmt.Sprintf("loop#%d", i+1))
 			pos := r.P.Pos(lastPos(l.Header))
 			if cl.Kind == "none" {
 				r.Violate("L1", key, pos, "loop without a recognised termination variant: "+cl.Why+" — no gas is consumed inside, so neither DeliverTx nor Begin/EndBlock bounds it")
@@ -513,7 +513,7 @@ func ruleL1(r *core.Run) {
 		}
 		if rec {
 			nrec++
-			r.Violate("L1-rec", core.Key("L1-rec", r.P.Name(f)), r.P.FuncPos(f), "function takes part in a call cycle (recursion) on a consensus path: no variant is recognised for recursion")
+			r.Violate("L1-rec", core.Key("L1-rec", r.KeyName(f)), r.P.FuncPos(f), "function takes part in a call cycle (recursion) on a consensus path: no variant is recognised for recursion")
 		}
 	}
 	r.Discharge("L1-rec", "L1-rec|scope", "", fmt.Sprintf("%d functions checked for call cycles, %d recursive", len(scope), nrec))
